@@ -21,6 +21,10 @@ Suites
             without a final state (noise / collapse / samples=) (QV/Model/MeasureProbs.lean)
   batching  sample_frequencies at exact multiples of SHOT_BATCH_SIZE, patched and TRUE constant
   search    unpatched sampler: support, sums, histogram consistency (direct property search)
+  bitflip…  tools/props/C03_bitflip.py: bit-flip readout noise (gates.M p0/p1 forms, apply_bitflips with the
+            uniform numbers forced, noisy accessor histories, repeated execution), results holding
+            frequencies only, gates with parameters in measurement symbols, on_qubits / real-sampler searches
+            (QV/Model/Bitflip.lean, QOp.pgate of QV/Model/Repeated.lean)
 """
 from __future__ import annotations
 
@@ -2161,6 +2165,9 @@ def run(ctx):
     probs_history_suite(ctx)
     batching_suite(ctx)
     real_sampler_search(ctx)
+    from props import C03_bitflip
+
+    C03_bitflip.run_suites(ctx)
     ctx.notes.append(
         "probabilities: every ordered qubit list for n<=4 (+ random n<=6/7) on Gaussian-integer states and non-Hermitian integer density matrices, "
         "through the backend functions, QuantumState and CircuitResult; binary/decimal/frequency primitives incl. batching with small SHOT_BATCH_SIZE; "
@@ -2175,8 +2182,8 @@ def run(ctx):
         "noise / collapse / samples= results; sample_frequencies at nshots = B, 2B, B+-1 with patched B and with the true 2**18")
     ctx.assumptions += [
         "np.random.choice returns i.i.d. indices of non-zero probability (statistical unbiasedness of the sampler is assumed, not proved)",
-        "bit-flip noise (p0/p1 != 0) is outside the property's quantifier and is not exercised",
-        "sample_shots / np.random.shuffle are replaced inside the harness process so that draws are inputs; everything downstream is the real code",
+        "bit-flip noise: np.random.random returns i.i.d. uniform numbers in [0, 1) (assumed; the counting theorems are over a finite grid of equally likely values)",
+        "sample_shots / np.random.shuffle / np.random.random are replaced inside the harness process so that draws are inputs; everything downstream is the real code",
         "only the numpy backend is exercised",
     ]
     ctx.trusted.append("lean/DriverC03.lean line protocol and the canonicalisation of qibo outputs in tools/props/C03.py (HARNESS_SRC)")
